@@ -4,6 +4,7 @@ CONSTANTS
   MaxGen = 3
   RestartRule = "stop_old"
   PortRule = "opened"
+  ShutdownRule = "close_always"
 INVARIANT OneResponder
 INVARIANT AnswersTrue
 CHECK_DEADLOCK FALSE
